@@ -2,6 +2,7 @@ import Labella.Driver.LayoutCmd
 import Labella.Driver.TextCmd
 import Labella.Driver.CalCmd
 import Labella.Driver.ScaleCmd
+import Labella.Driver.QpCmd
 /-! Line-protocol driver: one case per line in, one verdict line out.  A line that cannot be parsed is
 answered `bad-line` (an infrastructure error for the harness, never a default verdict). -/
 open Labella.Driver
@@ -26,6 +27,7 @@ def dispatch (line : String) : String :=
     | "lticks" :: rest => lticksCmd rest
     | "lnice" :: rest => lniceCmd rest
     | "lhist" :: rest => lhistCmd rest
+    | "qp" :: rest => qpCmd rest
     | _ => none
   r.getD "bad-line"
 
